@@ -582,13 +582,21 @@ Example ex_wrong_confirm_and_timeout :
   /\ ex_out 10 = [OInfo ISolNewRequest; ODb DbReset; OInfo (IIdleRequest 24 10); ODb DbEvinfo; OTx 1 [202; 129; 128; 0]].
 Proof. vm_compute. auto 10. Qed.
 
+(* the hypotheses of theorems 2a / 2b hold in the states of the history: the invariants G (by
+   reach_invariants), in or outside the solicited confirm wait, no fuel exhausted *)
+Definition ex_reached (n : nat) : ostate * list item := trace_of ex_cfg 0 0 0 [] (firstn n ex_hist).
+
 Example ex_hypotheses_theorem2 :
-  G (ex_after 2) /\ nwait (ex_after 0) /\ Forall sol_tx_fir (ex_out 0) /\ ~ In OOutOfFuel (ex_out 1).
+  G (fst (ex_reached 2)) /\ s_control (fst (ex_reached 2)) = CSolWait {| se_ecsn := 2; se_fin := false |} 5001 RStep2
+  /\ G (fst (ex_reached 0)) /\ nwait (fst (ex_reached 0)).
 Proof.
-  split; [|split; [exact I|split]].
-  - apply (reach_invariants ex_cfg _ (snd (trace_of ex_cfg 0 0 0 [] (firstn 2 ex_hist)))).
+  split; [|split; [|split]].
+  - apply (reach_invariants ex_cfg (fst (ex_reached 2)) (snd (ex_reached 2))).
     + apply (trace_of_Trace ex_cfg 0 0 0 [] (firstn 2 ex_hist)). repeat constructor.
     + vm_compute. discriminate.
-  - vm_compute. repeat constructor; intros X; try discriminate X; reflexivity.
-  - vm_compute. intuition discriminate.
+  - vm_compute. reflexivity.
+  - apply (reach_invariants ex_cfg (fst (ex_reached 0)) (snd (ex_reached 0))).
+    + apply (trace_of_Trace ex_cfg 0 0 0 [] (firstn 0 ex_hist)). constructor.
+    + vm_compute. discriminate.
+  - vm_compute. exact I.
 Qed.
